@@ -1,9 +1,11 @@
 //! The executor: a pure function of (event list, code under test).
 
 use std::{
-    collections::{BTreeMap, BTreeSet},
+    collections::{BTreeMap, BTreeSet, HashMap},
     path::PathBuf,
 };
+
+use rangemap::RangeInclusiveSet;
 
 use klukai_types::{
     actor::ActorId,
@@ -363,6 +365,7 @@ impl World {
                 server,
                 faults,
             } => self.ev_sync(*client, *server, faults).await,
+            Event::WireSync { client, servers } => self.ev_wire_sync(*client, servers).await,
             Event::Recut {
                 origin,
                 version,
@@ -1245,6 +1248,184 @@ impl World {
             self.stats.probe("sync.with-answers");
         }
         for a in kept {
+            let (ls, nch) = (a.last_seq().map(|x| x.0), a.changes().len());
+            let k = self.add_msg(Some(c), s, "s", a);
+            self.logln(format!("  -> {k} last_seq={ls:?} changes={nch}"));
+        }
+        Ok(Ok(()))
+    }
+
+    // -----------------------------------------------------------------------
+    // Sync over the wire: the production client loop against the production server
+
+    async fn ev_wire_sync(&mut self, c: usize, servers: &[usize]) -> StepRes {
+        let mut servers: Vec<usize> = servers.iter().copied().filter(|s| *s != c && *s < self.n() && self.live(*s)).collect();
+        servers.sort();
+        servers.dedup();
+        if !self.live(c) || servers.is_empty() {
+            return Ok(Ok(()));
+        }
+        let ours = self.node(c).sync_state().await;
+        let mut fresh: BTreeMap<usize, SyncStateV1> = BTreeMap::new();
+        for s in servers.iter() {
+            let st = self.node(*s).sync_state().await;
+            self.last_state[*s] = Some(st.clone());
+            fresh.insert(*s, st);
+        }
+        let members: Vec<(ActorId, std::net::SocketAddr)> =
+            servers.iter().map(|s| (self.actors[*s], self.node(*s).agent.gossip_addr())).collect();
+        let _ = klukai_types::verif::sync_needs_take();
+        let _ = klukai_types::verif::sync_reqs_take();
+        let mut attempt = 0;
+        // a session counts only if every handshake went through (the client's 2 s handshake
+        // time-outs are real time); nothing changes state before that, so it is simply repeated
+        let (needs_log, reqs_log, mut answers) = loop {
+            let (res, answers) = self.node_mut(c).wire_sync(members.clone(), ours.clone()).await?;
+            let needs_log = klukai_types::verif::sync_needs_take();
+            let reqs_log = klukai_types::verif::sync_reqs_take();
+            if res.is_ok() && needs_log.len() == servers.len() {
+                break (needs_log, reqs_log, answers);
+            }
+            attempt += 1;
+            self.stats.probe("wire.session-repeated");
+            if attempt >= 3 {
+                return Err(SimError::Harness(format!(
+                    "wire sync session failed three times: {:?}, {} of {} handshakes",
+                    res.err(),
+                    needs_log.len(),
+                    servers.len()
+                )));
+            }
+        };
+        self.stats.fault(if servers.len() > 1 { "wire-session-several-servers" } else { "wire-session" });
+        // (1) what the client computed for each server, against the two states
+        type FullSet = BTreeMap<usize, RangeInclusiveSet<u64>>;
+        type PartSet = BTreeMap<(usize, u64), RangeInclusiveSet<u64>>;
+        fn add_need(a: usize, nd: &SyncNeedV1, full: &mut FullSet, part: &mut PartSet) {
+            match nd {
+                SyncNeedV1::Full { versions } => {
+                    full.entry(a).or_default().insert(versions.start().0..=versions.end().0);
+                }
+                SyncNeedV1::Partial { version, seqs } => {
+                    let e = part.entry((a, version.0)).or_default();
+                    for r in seqs {
+                        e.insert(r.start().0..=r.end().0);
+                    }
+                }
+                SyncNeedV1::Empty { .. } => {}
+            }
+        }
+        let mut computed: BTreeMap<usize, (FullSet, PartSet)> = BTreeMap::new();
+        let mut all_full = FullSet::new();
+        let mut all_part = PartSet::new();
+        for (_, server, needs) in needs_log.iter() {
+            let Some(&s) = self.actor_idx.get(&ActorId::from_bytes(*server)) else {
+                continue;
+            };
+            let map: HashMap<ActorId, Vec<SyncNeedV1>> = needs.iter().cloned().collect();
+            tri!(super::oracle::check_needs(self, c, s, &ours, &fresh[&s], &map));
+            let e = computed.entry(s).or_default();
+            for (actor, ns) in needs.iter() {
+                let a = *self.actor_idx.get(actor).unwrap_or(&999);
+                for nd in ns {
+                    add_need(a, nd, &mut e.0, &mut e.1);
+                    add_need(a, nd, &mut all_full, &mut all_part);
+                }
+            }
+        }
+        // (2) what was put on the wire, as the servers read it
+        let mut sent_full = FullSet::new();
+        let mut sent_part = PartSet::new();
+        let mut flat: BTreeMap<usize, Vec<(usize, SyncNeedV1)>> = BTreeMap::new();
+        let mut n_frames = 0usize;
+        for (server, _, frame) in reqs_log.iter() {
+            let Some(&s) = self.actor_idx.get(&ActorId::from_bytes(*server)) else {
+                continue;
+            };
+            n_frames += 1;
+            let empty = (FullSet::new(), PartSet::new());
+            let (cf, cp) = computed.get(&s).unwrap_or(&empty);
+            for (actor, ns) in frame.iter() {
+                let a = *self.actor_idx.get(actor).unwrap_or(&999);
+                if a == c {
+                    return vio("C04", "wire-request-for-own-actor", json!({"client": c, "server": s}));
+                }
+                for nd in ns {
+                    let within = match nd {
+                        SyncNeedV1::Full { versions } => {
+                            versions.start() <= versions.end()
+                                && cf.get(&a).is_some_and(|set| set.gaps(&(versions.start().0..=versions.end().0)).next().is_none())
+                        }
+                        SyncNeedV1::Partial { version, seqs } => seqs.iter().all(|r| {
+                            r.start() <= r.end()
+                                && cp.get(&(a, version.0)).is_some_and(|set| set.gaps(&(r.start().0..=r.end().0)).next().is_none())
+                        }),
+                        SyncNeedV1::Empty { .. } => true,
+                    };
+                    if !within {
+                        return vio(
+                            "C04",
+                            "wire-request-not-among-the-needs-computed-for-that-peer",
+                            json!({"client": c, "server": s, "actor": a, "need": format!("{nd:?}")}),
+                        );
+                    }
+                    add_need(a, nd, &mut sent_full, &mut sent_part);
+                    flat.entry(s).or_default().push((a, nd.clone()));
+                }
+            }
+        }
+        self.stats.oracle_checks += 1;
+        let rl = |s: &RangeInclusiveSet<u64>| s.iter().map(|r| (*r.start(), *r.end())).collect::<Vec<_>>();
+        for (a, set) in all_full.iter() {
+            let sent = sent_full.get(a).cloned().unwrap_or_default();
+            if rl(&sent) != rl(set) {
+                return vio(
+                    "C04",
+                    "computed-need-not-put-on-the-wire",
+                    json!({"client": c, "servers": servers, "actor": a, "computed_versions": rl(set), "requested_versions": rl(&sent)}),
+                );
+            }
+        }
+        for ((a, v), set) in all_part.iter() {
+            let sent = sent_part.get(&(*a, *v)).cloned().unwrap_or_default();
+            if rl(&sent) != rl(set) {
+                return vio(
+                    "C04",
+                    "computed-need-not-put-on-the-wire",
+                    json!({"client": c, "servers": servers, "actor": a, "version": v, "computed_seqs": rl(set), "requested_seqs": rl(&sent)}),
+                );
+            }
+            self.stats.probe("wire.partial-need-requested");
+        }
+        if all_part.keys().map(|(_, v)| v).collect::<BTreeSet<_>>().len() < all_part.len() {
+            self.stats.probe("wire.partial-needs-of-two-actors-with-one-version-number");
+        }
+        self.logln(format!(
+            "wire sync n{c}<-{servers:?}: full={:?} partial={:?}",
+            all_full.iter().map(|(a, s)| (*a, rl(s))).collect::<Vec<_>>(),
+            all_part.iter().map(|(k, s)| (*k, rl(s))).collect::<Vec<_>>(),
+        ));
+        let _ = n_frames;
+        if servers.len() > 1 {
+            // which server is asked for what depends on the order in which the handshakes
+            // finish; only order-independent facts are judged and the answers are not used
+            return Ok(Ok(()));
+        }
+        // (3) one server: its answers are judged like those of a simulated session and go on
+        let s = servers[0];
+        let mut flat = flat.remove(&s).unwrap_or_default();
+        flat.sort_by_key(|(a, nd)| (*a, need_key(nd)));
+        answers.sort_by_key(|cv| {
+            let a = *self.actor_idx.get(&cv.actor_id).unwrap_or(&999);
+            let v = cv.versions();
+            let s = cv.seqs().map(|r| (r.start().0, r.end().0));
+            (a, v.start().0, v.end().0, s.is_none(), s)
+        });
+        tri!(super::oracle::check_answers(self, s, &fresh[&s], &flat, &answers).await);
+        if !answers.is_empty() {
+            self.stats.probe("wire.session-with-answers");
+        }
+        for a in answers {
             let (ls, nch) = (a.last_seq().map(|x| x.0), a.changes().len());
             let k = self.add_msg(Some(c), s, "s", a);
             self.logln(format!("  -> {k} last_seq={ls:?} changes={nch}"));
